@@ -533,7 +533,14 @@ class BuiltinMixin:
         raise Unsupported('next()')
 
     def bi_iter(self, args, kw, node):
-        return SV('const', B.Items(self.iter_concrete(args[0])))
+        # an iterator object: always truthy (unlike the list it walks), consumed by iteration
+        a = args[0]
+        if a.k == 'seq' or (a.k == 'list' and isinstance(self.st.heap[a.t], HSeqList)):
+            # over a sequence of symbolic length: an opaque iterator (never equal to a list, always truthy)
+            return SV('opq', self.sym('iterator', OPQ), 'iterator')
+        it = B.Items(self.iter_concrete(args[0]))
+        it.is_iterator = True
+        return SV('const', it)
 
     def bi_iff(self, args, kw, node):
         return VB(self.truth(args[0]) == self.truth(args[1]))
